@@ -370,12 +370,27 @@ pub fn check(env: &Env, c: &Case, st: &mut Stats) -> CaseResult {
                     return Ok(());
                 }
             };
-            if d2.zone.is_some() || has_zone {
-                st.excluded("difference of zoned literals (no independent zone database)");
-                return Ok(());
-            }
             let q = format!("{} - #{}#", dtext, lit2);
-            let want = expected - epoch_ns(d2);
+            let want = if d2.zone.is_some() || has_zone {
+                // no independent zone database: the difference must agree with the two instants
+                // as rink itself reads them one at a time (metamorphic)
+                if d2.y < 1980 {
+                    st.excluded("zoned literal before 1980 (local-mean-time offsets have seconds, which RFC 3339 text cannot show)");
+                    return Ok(());
+                }
+                match date_of(rinkx::eval_line(&env.ctx, &format!("#{}#", lit2))) {
+                    Ok((ns2, _, _, _)) => {
+                        st.class("difference_with_zone");
+                        d_ns - ns2
+                    }
+                    Err(_) => {
+                        st.excluded("second literal not read as a date (DST gap)");
+                        return Ok(());
+                    }
+                }
+            } else {
+                expected - epoch_ns(d2)
+            };
             st.eval();
             st.class("difference");
             if offsetful || d2.off_min != 0 {
@@ -521,6 +536,7 @@ pub fn case_strategy() -> impl Strategy<Value = Case> {
         3 => Just(Op::Literal),
         6 => (k_strategy(), proptest::sample::select(UNITS.to_vec())).prop_map(|(k, u)| Op::RoundTrip { k: k.to_string(), unit: u.to_string() }),
         2 => (instant(false), 0u8..8).prop_map(|((i, fd), p)| Op::Diff(i, p, fd)),
+        1 => (instant(true), 0u8..8).prop_map(|((i, fd), p)| Op::Diff(i, p, fd)),
         3 => (any::<bool>(), prop_oneof![4 => 0u32..24, 1 => 24u32..100], 0u32..60).prop_map(|(neg, h, m)| Op::RezoneOffset { neg, h, m }),
         1 => proptest::sample::select(ZONES.to_vec()).prop_map(|z| Op::RezoneZone(z.to_string())),
     ];
